@@ -601,3 +601,4 @@ M('r8-contains-shifted', [(FM, '''                pattern.ordered_call_index_ran
                     && pattern.ordered_call_index_range.end > ordered_call_index''', '''                pattern.ordered_call_index_range.contains(&(ordered_call_index + 1))''')], {'C04': r'R04\.4'})
 M('r8-returner-dropped', [('src/build.rs', '''                Ok(responder) => self.push_responder(responder.into_dyn_responder()),''', '''                Ok(responder) => { let _ = responder; }''')],
   {'C02': r'R02\.10', 'C12': r'R12\.10', 'C14': r'R14\.5', 'C17': r'R17\.7'})
+M('r9-hygiene-reverted', [(MA, '''                        span.resolved_at(proc_macro2::Span::mixed_site()),''', '''                        span,''')], {'C06': r'R06\.2'})
